@@ -22,6 +22,10 @@ pub const IMPORT_NAMES: &[&str] = &[
     "DebugInfo",
     "SPV_AMD_shader_ballot",
     "GLSL.std.450 ",
+    "OpenCL.std.100",
+    "GLSL.std.450.1",
+    "NonSemantic.Shader.DebugInfo.100 ",
+    "",
 ];
 
 fn lit(v: u32) -> AOp {
@@ -395,7 +399,14 @@ pub fn scale_module(rng: &mut Rng, variant: u64) -> (String, Vec<AInst>) {
             }
             m.push(AInst::named("TypeVoid", None, Some(void), vec![]));
             m.push(AInst::named("TypeFunction", None, Some(fnty), vec![AOp::id(void)]));
+            // now and then the prototype / definition pair of one function under the SAME id (what a naive
+            // linker input looks like): a body-less copy in front of a definition
+            let twice: Option<usize> = if rng.chance(1, 4) { (0..order.len()).find(|i| has_body[*i]) } else { None };
             for (i, f) in order.iter().enumerate() {
+                if twice == Some(i) {
+                    m.push(AInst::named("Function", Some(void), Some(*f), vec![AOp::w(K::FunctionControl, 0), AOp::id(fnty)]));
+                    m.push(AInst::named("FunctionEnd", None, None, vec![]));
+                }
                 m.push(AInst::named("Function", Some(void), Some(*f), vec![AOp::w(K::FunctionControl, 0), AOp::id(fnty)]));
                 if has_body[i] {
                     m.push(AInst::named("Label", None, Some(*f + 1), vec![]));
@@ -457,6 +468,26 @@ pub fn scale_module(rng: &mut Rng, variant: u64) -> (String, Vec<AInst>) {
                         if rng.chance(2, 3) {
                             m.push(AInst::named("Nop", None, None, vec![]));
                         }
+                    }
+                    // structured control flow as a debug-info emitting front end writes it: merge instruction,
+                    // line info for the branch, then the terminator
+                    if rng.chance(1, 2) {
+                        let (mb, cb) = (fresh(), fresh());
+                        if rng.chance(1, 2) {
+                            m.push(AInst::named("SelectionMerge", None, None, vec![AOp::id(mb), AOp::w(K::SelectionControl, 0)]));
+                        } else {
+                            m.push(AInst::named("LoopMerge", None, None, vec![AOp::id(mb), AOp::id(cb), AOp::w(K::LoopControl, 0)]));
+                        }
+                        for _ in 0..rng.below(3) {
+                            m.push(line(rng));
+                            n_line += 1;
+                        }
+                        match rng.below(3) {
+                            0 => m.push(AInst::named("Branch", None, None, vec![AOp::id(cb)])),
+                            1 => m.push(AInst::named("BranchConditional", None, None, vec![AOp::id(void), AOp::id(mb), AOp::id(cb)])),
+                            _ => m.push(AInst::named("Return", None, None, vec![])),
+                        }
+                        continue;
                     }
                     if rng.chance(1, 2) {
                         m.push(line(rng));
